@@ -137,6 +137,18 @@ def run(tier, seed):
                 ck.disagree('%s mode output differs from the model' % mode, rp | {'impl': b[0][:200], 'model': mo[:200]})
             elif clirun.diag_lines(b[1]) != me:
                 ck.disagree('number of diagnostics on stderr differs from the model', rp | {'impl': clirun.diag_lines(b[1]), 'model': me, 'stderr': b[1][-400:]})
+        # the same pairs in interpreters that run with assertions disabled (`python -O`): truncated files must stay undecodable there
+        for (mode, argv, cfg, clean, dirty, files, junk) in [m for m in meta if m[5] and m[6]][::(3 if thorough else 6)]:
+            a = clirun.run_sub(['-p', clean] + clirun.cfg_argv(cfg) + argv, optimise=True)
+            b = clirun.run_sub(['-p', dirty] + clirun.cfg_argv(cfg) + argv, optimise=True)
+            ck.case(key=('-O', mode, tuple(files), tuple(junk)))
+            ck.count('mode %s under python -O' % mode)
+            rp = {'op': 'cli', 'optimise': True, 'argv': clirun.cfg_argv(cfg) + argv, 'files': [(n, x.hex()) for n, x in files], 'junk': [(n, x.hex()) for n, x in junk]}
+            if b[2] != 0:
+                ck.fail('under python -O the exit status is not 0 with junk files present', rp | {'exit': b[2], 'stderr': b[1][-300:]}, 'exit_O')
+            if a[0] != b[0]:
+                k = next((i for i in range(min(len(a[0]), len(b[0]))) if a[0][i] != b[0][i]), min(len(a[0]), len(b[0])))
+                ck.fail('under python -O junk files changed what is printed for the other PELs', rp | {'at': k, 'clean': a[0][max(0, k - 80):k + 80], 'with_junk': b[0][max(0, k - 80):k + 80]}, 'interference_O')
         # -j: stdout stays empty, the same output files are created for the decodable PELs
         for (mode, argv, cfg, clean, dirty, files, junk) in meta[::7]:
             outs = []
